@@ -754,6 +754,50 @@ def run(ctx):
                    "argument derives from %s through [%s]" % (describe(e), ", ".join(chain)))
     ctx.guard("R04.7", r7)
 
+    # ---------------------------------------------------------------- R04.8 include is transparent for the including document
+    ctx.rule("R04.8", "<xi:include>: every ReaderState field that process_file overwrites for the file it reads (the current path against which "
+                      "relative src/href are resolved, the text buffer) is saved in ReaderState::include before the nested process_file call and "
+                      "restored after it - the rest of the including document is read in the context it was started in")
+
+    def r8():
+        pf = F.fn(RS + "process_file")
+        inc = F.fn(RS + "include")
+        fields = sorted({n["n"] for fn, n, kind, meth, par in [(fn, n, k, m, p) for t in F.types if t.endswith("::ReaderState")
+                                                               for f2 in F.types[t]["variants"][0]["f"]
+                                                               for fn, n, k, m, p in mutations_of_field(F, "ReaderState", f2[0])] if fn.path == pf.path})
+        ctx.floor("R04.8", "ReaderState fields overwritten by process_file", len(fields), 2)
+        calls = inc.calls(RS + "process_file")
+        ctx.exact("R04.8", "process_file calls in include", len(calls), 1)
+        if len(calls) != 1:
+            return
+        idx8 = hirq.order_index(inc)
+        selfb = inc.params[0]["b"]
+        for fld in fields:
+            saved = None
+            for let in inc.nodes("let"):
+                if "init" not in let or let["pat"].get("k") != "bind" or idx8[id(let)] > idx8[id(calls[0])]:
+                    continue
+                mentions = [x for x in hirq.walk(let["init"]) if x.get("k") == "field" and x["n"] == fld and local_of(x["e"], NO_T) == selfb]
+                if mentions:
+                    saved = let
+            restored = None
+            if saved is not None:
+                for a in inc.nodes("assign"):
+                    f = hirq.field_of(a["l"], NO_T)
+                    if f and f[1] == fld and local_of(f[0], NO_T) == selfb and local_of(a["r"], NO_T) == saved["pat"]["b"] and idx8[id(a)] > idx8[id(calls[0])]:
+                        restored = a
+            unconditional = False
+            if restored is not None:
+                gc = [g["node"] for g in hirq.guards(inc, calls[0])]
+                gr = hirq.guards(inc, restored)
+                # same path as the call; the only additional conditions are "the nested read did not fail" (diverging early exits)
+                unconditional = hirq.enclosing_loops(inc, restored) == hirq.enclosing_loops(inc, calls[0]) and \
+                    all(any(g["node"] is c for g in gr) for c in gc) and \
+                    all(g["how"].startswith("early-exit") for g in gr if not any(g["node"] is c for c in gc))
+            ctx.ob("R04.8", site_key(inc, "self.%s saved before and restored after the nested process_file" % fld), saved is not None and unconditional, line_of(calls[0]),
+                   "saved: %s; restored on the same path after the call: %s" % (line_of(saved) if saved is not None else "no", line_of(restored) if restored is not None else "no"))
+    ctx.guard("R04.8", r8)
+
 
 def wire_arm(a):
     p = a["pat"]
